@@ -27,6 +27,8 @@ pub struct Setting {
     pub index_partitioned: bool,
     pub filter: FilterMode,
     pub partition_size: u32,
+    #[serde(default)]
+    pub lz4: bool,
 }
 
 #[derive(Clone, Copy, Debug, Serialize, Deserialize, PartialEq)]
@@ -65,14 +67,21 @@ pub fn settings() -> Vec<Setting> {
                 for index_partitioned in [false, true] {
                     for filter in [FilterMode::Off, FilterMode::Full, FilterMode::Partitioned] {
                         for partition_size in [1u32, 4096] {
-                            v.push(Setting {
-                                block_size,
-                                restart,
-                                hash_ratio,
-                                index_partitioned,
-                                filter,
-                                partition_size,
-                            });
+                            for lz4 in [false, true] {
+                                // compressed variants only with the large partition size (keeps the product in check)
+                                if lz4 && partition_size == 1 {
+                                    continue;
+                                }
+                                v.push(Setting {
+                                    block_size,
+                                    restart,
+                                    hash_ratio,
+                                    index_partitioned,
+                                    filter,
+                                    partition_size,
+                                    lz4,
+                                });
+                            }
                         }
                     }
                 }
@@ -381,6 +390,8 @@ pub fn write_table(ctx: &Ctx, stream: &[Entry], st: &Setting) -> Result<(PathBuf
         .use_data_block_size(st.block_size)
         .use_data_block_restart_interval(st.restart)
         .use_data_block_hash_ratio(st.hash_ratio)
+        .use_data_block_compression(if st.lz4 { lsm_tree::CompressionType::Lz4 } else { lsm_tree::CompressionType::None })
+        .use_index_block_compression(if st.lz4 { lsm_tree::CompressionType::Lz4 } else { lsm_tree::CompressionType::None })
         .use_bloom_policy(match st.filter {
             FilterMode::Off => BloomConstructionPolicy::BitsPerKey(0.0),
             _ => BloomConstructionPolicy::BitsPerKey(10.0),
